@@ -50,9 +50,11 @@ def pyIntBody (s : List Char) : Option Nat :=
 /-- `int(s)` for a `str` (base 10) -/
 def pyInt (s : List Char) : Option Int :=
   match strip s with
-  | '-' :: r => (pyIntBody r).map fun n => -(n : Int)
-  | '+' :: r => (pyIntBody r).map fun n => (n : Int)
-  | r => (pyIntBody r).map fun n => (n : Int)
+  | [] => none
+  | c :: r =>
+    if c = '-' then (pyIntBody r).map fun n => -(n : Int)
+    else if c = '+' then (pyIntBody r).map fun n => (n : Int)
+    else (pyIntBody (c :: r)).map fun n => (n : Int)
 
 def pyIntE (s : List Char) : CM Int :=
   match pyInt s with
